@@ -25,7 +25,7 @@ func main() {
 }
 
 func optsFor(prop, tier string) (core.GenOpts, int) {
-	all := []string{"random", "chain", "blocked", "mutex", "autos", "after", "multi", "sparse"}
+	all := []string{"random", "chain", "blocked", "mutex", "autos", "after", "multi", "sparse", "health", "autoveto"}
 	o := core.GenOpts{MaxStates: 6, MaxOps: 14, Handlers: 0.6, Faults: 0.0, Timeouts: 0.0, Nested: 0.15, Checks: 0.15, Motifs: all}
 	n := 1500
 	switch prop {
@@ -41,10 +41,11 @@ func optsFor(prop, tier string) (core.GenOpts, int) {
 		o.Nested, o.Handlers = 0.5, 0.9
 	case "C05":
 		o.Handlers = 1.0
+		o.Detach = 0.25
 		o.Motifs = []string{"after", "after", "random", "sparse", "multi", "autos"}
 	case "C07":
-		o.Motifs = []string{"autos", "autos", "mutex", "random", "chain"}
-		o.Handlers = 0.7
+		o.Motifs = []string{"autos", "autoveto", "autoveto", "health", "mutex", "random", "chain"}
+		o.Handlers = 0.8
 	case "C08":
 		o.Handlers, o.Faults, o.Timeouts = 1.0, 0.9, 0.05
 		n = 800
